@@ -9,13 +9,46 @@ import traceback
 
 
 def pristine():
-    """True when no optyx object has passed through the process-wide caches of this process."""
-    from optyx.core import compiler, autodiff
-    from optyx import analysis
+    """True when no optyx object has passed through the process-wide memos of this process: every lru_cache-style
+    memo defined at module level in any optyx module is empty, and so is every private module-level dict / list / set
+    that was empty or absent at import time (no private name of optyx is spelled out here)."""
+    import sys
 
-    return (compiler._compile_cached.cache_info().currsize == 0
-            and autodiff._gradient_cached.cache_info().currsize == 0
-            and analysis._compute_degree_cached.cache_info().currsize == 0)
+    for name, mod in list(sys.modules.items()):
+        if name != "optyx" and not name.startswith("optyx."):
+            continue
+        for attr, obj in list(vars(mod).items()):
+            ci = getattr(obj, "cache_info", None)
+            if callable(ci):
+                try:
+                    if ci().currsize != 0:
+                        return False
+                except Exception:
+                    pass
+            elif attr.startswith("_") and not attr.startswith("__") and isinstance(obj, (dict, list, set)) \
+                    and (attr, name) in _EMPTY_AT_IMPORT and len(obj) != 0:
+                return False
+    return True
+
+
+def _snapshot_empty_containers():
+    import sys
+
+    out = set()
+    for name, mod in list(sys.modules.items()):
+        if name == "optyx" or name.startswith("optyx."):
+            for attr, obj in list(vars(mod).items()):
+                if attr.startswith("_") and not attr.startswith("__") and isinstance(obj, (dict, list, set)) and len(obj) == 0:
+                    out.add((attr, name))
+    return out
+
+
+try:
+    import optyx  # noqa: F401
+
+    _EMPTY_AT_IMPORT = _snapshot_empty_containers()
+except Exception:      # pragma: no cover
+    _EMPTY_AT_IMPORT = set()
 
 
 def run_in_child(fn, *args, timeout=120):
